@@ -456,6 +456,16 @@ func (h *harness) run(t *Text, c Combo) ReqResult {
 		}
 		res.QShaped = shaped && !res.ErrInBody
 	}
+	if r.Status >= 500 || strings.Contains(strings.ToLower(res.Reply), "timeout") {
+		// the node gave up on the request (time-out, lost leadership…): it may still be
+		// on its way through the log, so there is no clean before/after window
+		h.counts["reply:5xx-or-timeout"]++
+		time.Sleep(time.Second)
+		h.quiesce(60 * time.Second)
+		h.rebaseline()
+		res.Inconcl = fmt.Sprintf("request gave up: HTTP %d %s", r.Status, trunc(res.Reply, 60))
+		return res
+	}
 	if res.ErrInBody {
 		h.counts["reply:error"]++
 	} else if r.Status == 200 {
